@@ -9,7 +9,9 @@ Tie K   every cell of operator x operand-kind (and conditionals, aggregates, ran
         real translator as a full query on a data model declared by metadata; emitted text and declared column type are
         compared with the model's.  evalPy is compared with CPython on every sample.
 Oracle  the decidable Spec (ColOk) evaluated by the Lean driver on what the IMPLEMENTATION emitted: its text parsed
-        and run under evalC (quick), and the values printed by the g++-compiled job (thorough).
+        and run under evalC (quick), and the values printed by the g++-compiled job (thorough).  An operand's C++ type
+        is the type of the expression the implementation reads it from: a count read off `c->size()` is a std::size_t
+        (Spec.lean `evalX`, = evalC when there is no such operand: theorem evalX_conservative).
 """
 from __future__ import annotations
 
@@ -35,13 +37,19 @@ THEOREMS = [
         "count_correct", "sum_correct", "maxmin_correct_partial", "clamp_sum_correct", "cond_arm", "cond_shape", "boolop_truth",
         "mod_float_counterexample", "neg_bool_counterexample", "not_float_counterexample",
         "not_float_kind_counterexample", "cond_int_counterexample", "max_int_counterexample", "mod_negative_differs",
+        "evalX_conservative", "storeX_conservative", "evalCondX_conservative", "size_cast_int", "unsigned_count_differs",
     ]
 ]
 RULE = (
     "every cell of {+,-,*,/,%,**} x 5x5 operand kinds, {+,-,not,~} x 5 kinds, 6 comparisons x 5x5 kinds, conditionals over "
     "5x5 arm kinds, Count/Sum/Max/Min over 4 value kinds, Aggregate with int/float seeds, the non-property operators, at "
     "jet level (accessors declared by metadata) and event level (Count() of two banks, EventInfo accessors), each with "
-    "several operand spellings (accessor / literal / Count), plus seeded random trees of depth <=3; each case is one full "
+    "several operand spellings (accessor / literal / Count), plus seeded random trees of depth <=3; the SIGN family (every "
+    "spelling of an integer operand - Count() of a bank, Sum() of ints, integer accessors - x 5 ways of going below zero x 12 "
+    "consumers that tell a signed integer from anything else: /, a real partner, **, comparisons also with negative literals, "
+    "conditional test and arm, int and double columns) and the LITERAL-WIDTH family (integer literals 2^31-1 .. 2^40+1 and "
+    "negations next to every integer operand spelling under /, comparisons, reals, conditionals, folds, %), both also as a "
+    "third of the terms of further random trees; each case is one full "
     "query through the real translator, evaluated on 5-6 sample rows (negatives, zeros, dyadic reals; non-negative rows "
     "for %). A case is non-trivial when it has an operator and is accepted; distinct = distinct query text."
 )
@@ -49,7 +57,9 @@ TRUSTED_BASE = [
     "hand model (Model.lean) of visit_BinOp/visit_special_BinOp/visit_UnaryOp/visit_Compare/visit_Constant/visit_IfExp/"
     "visit_call_Aggregate_initial/most_accurate_type/set_var, tied to the code by text equality on every case of this run",
     "C++ semantics of the emitted expression subset (evalC: usual arithmetic conversions, bool promotion, int/int and % "
-    "truncation, std::pow overloads), validated against g++ on every sample in the thorough tier",
+    "truncation, std::pow overloads), validated against g++ on every sample in the thorough tier; evalX: the same plus "
+    "std::size_t operands (arithmetic modulo 2^64, modular conversion to int) - only reached when an implementation reads "
+    "a count off a collection's size()",
     "Python semantics (evalPy), validated against CPython on every sample of every run",
     "the translator tools/c13_lib/tables.py (Python ast -> Lean tables), the readers of query.cxx/query.h in "
     "tools/c13_lib/real.py, the Lean-side parser of the emitted expression text (Driver.lean)",
@@ -59,7 +69,9 @@ ASSUMPTIONS = [
     "double arithmetic is abstract (structure Num, no law assumed); the driver instantiates it with IEEE binary64 and libm pow",
     "32-bit float operands are carried in the same abstract reals: precision of float arithmetic is not modelled "
     "('on the declared value types'); samples are chosen so that float results are exact",
-    "int results stay inside 32 bits (signed overflow is undefined in C++) and |int| < 2^53 (int -> double exact)",
+    "int results stay inside 32 bits (signed overflow is undefined in C++) and |int| < 2^53 (int -> double exact): integer "
+    "literals beyond 32 bits are generated only where the stored value is real, a truth value or a remainder, never with "
+    "binary32 operands; intermediate integer results with such a literal are `long` in C++ and stay below 2^63",
     "the metadata-declared return type of an accessor is the C++ method's actual return type",
     "'**' is judged as the property words it: a real power (double), also between ints; CPython's int result for "
     "int ** non-negative int is related to it by pow_int_exact_partial",
@@ -67,6 +79,8 @@ ASSUMPTIONS = [
 
 QUICK_RANDOM = 120
 THOROUGH_RANDOM = 3500
+QUICK_FAMILY_RANDOM = 40
+THOROUGH_FAMILY_RANDOM = 600
 
 
 # ------------------------------------------------------------------------------------------------------------ translator
@@ -169,6 +183,70 @@ def table_cases(thorough: bool = True) -> List[Tuple[str, str, Dict[str, Any]]]:
     ):
         for f in X.row_forms(cols):
             out.append(("multi-column", "evt", f))
+    out += sign_cases(thorough) + wide_cases(thorough)
+    return out
+
+
+def sign_cases(thorough: bool = True) -> List[Tuple[str, str, Dict[str, Any]]]:
+    """SIGN: every spelling of an integer operand x every way of going below zero x every consumer that can tell a
+    signed integer from something else (see c13_lib/exprs.py); the quick tier leaves out the second operand of a
+    spelling that is already there (Count() of the second bank, the second integer accessor of a jet)"""
+    out, seen = [], set()
+    for level in ("evt", "jet"):
+        xs = X.int_operands(level)
+        for k, x in enumerate(xs):
+            y = xs[(k + 1) % len(xs)]
+            if not thorough and x in (X.count_leaf("J2"), X.leaf("jet", "i2")):
+                continue
+            for inner in X.negative_inners(x, y):
+                for f in X.sign_consumers(inner, x, level):
+                    q = X.form_src(f, level)
+                    if q not in seen:
+                        seen.add(q)
+                        out.append(("signed-intermediate", level, f))
+    return out
+
+
+def wide_cases(thorough: bool = True) -> List[Tuple[str, str, Dict[str, Any]]]:
+    """WIDTH OF A LITERAL: integer literals around and beyond 2^31 (and their negations) next to every spelling of an
+    integer operand, in the positions where the stored value is real, a truth value or a remainder"""
+    out = []
+    pos = X.WIDE_LITS if thorough else [2**31 - 1, 2**31, 10**10]
+    neg = [2**31 + 1, 2**32] if thorough else [2**31 + 1]
+    evt_xs = [X.count_leaf("J1"), X.sum_leaf("i"), X.leaf("evt", "i")] if thorough else [X.count_leaf("J1"), X.leaf("evt", "i")]
+    for level, xs in (("evt", evt_xs), ("jet", [X.leaf("jet", "i")])):
+        for x in xs:
+            for n in pos:
+                # (a literal that is still an `int` in C++ stays out of integer sums: wide_safe)
+                for f in [f for f in X.wide_forms(x, X.int_lit(n), level) if X.wide_safe(f)] + X.wide_mod_forms(x, n):
+                    out.append(("wide-literal", level, f))
+            for n in neg:
+                for f in [f for f in X.wide_forms(x, X.neg_lit(n), level) if X.wide_safe(f)]:
+                    out.append(("wide-literal", level, f))
+    acc = X.acc_leaf()
+    for n in pos:
+        out.append(("wide-literal", "jet", X.form_agg(X.flt_lit(0.5), {"plain": X.binop("Add", acc, X.binop("Div", X.leaf("jet", "i"), X.int_lit(n)))})))
+        out.append(("wide-literal", "jet", X.form_agg(X.int_lit(0), {"plain": X.binop("Add", acc, X.binop("Div", X.int_lit(n), X.leaf("jet", "i2")))})))
+    return out
+
+
+def family_random_cases(rng, n: int) -> List[Tuple[str, str, Dict[str, Any]]]:
+    """random trees a third of whose terms come from the SIGN family (negative literals, integer expressions that go
+    below zero) resp. the WIDTH family (literals beyond 32 bits), inside the sample-safe region"""
+    out: List[Tuple[str, str, Dict[str, Any]]] = []
+    tries = 0
+    while len(out) < 2 * n and tries < 40 * n:
+        tries += 1
+        fam, atoms = (("random-signed", X.sign_atoms), ("random-wide", X.wide_atoms))[len(out) % 2]
+        level = "evt" if rng.random() < 0.6 else "jet"
+        d = rng.choice([1, 2, 2])
+        if rng.random() < 0.75:
+            f = X.form_plain(X.random_expr(rng, level, d, atoms=atoms))
+        else:
+            t = X.cmpop(rng.choice(list(X.CMP_OPS)), X.random_expr(rng, level, 1, atoms=atoms), X.random_expr(rng, level, 1, atoms=atoms))
+            f = X.form_cond(t, X.random_expr(rng, level, d - 1, atoms=atoms), X.random_expr(rng, level, d - 1, atoms=atoms))
+        if pow_safe(f) and f32_safe(f) and X.wide_safe(f) and (fam != "random-wide" or X.has_wide(f)):
+            out.append((fam, level, f))
     return out
 
 
@@ -486,6 +564,7 @@ def run(ctx):
     cases += table_cases(ctx.tier == "thorough")
     nrand = QUICK_RANDOM if ctx.tier == "quick" else THOROUGH_RANDOM
     cases += safe_random_cases(ctx.rng, nrand)
+    cases += family_random_cases(ctx.rng, QUICK_FAMILY_RANDOM if ctx.tier == "quick" else THOROUGH_FAMILY_RANDOM)
     results = [r for r in evaluate_cases(ctx, cases) if not (("frontend" in r["impl"]) and not ctx.count("skipped:func_adl-front-end-refusal"))]
     known_keys = {e["key"] for e in ctx.known_entries("known")}
     accepted = []
@@ -560,7 +639,7 @@ def sub_forms(form) -> List[Dict[str, Any]]:
 def search(ctx, broken):
     """Something no longer checks: sweep the table and a larger random sample with the Spec (evaluated on the
     implementation) as the only judge; shrink the first hit."""
-    cases = table_cases() + safe_random_cases(ctx.rng, 600)
+    cases = table_cases() + safe_random_cases(ctx.rng, 600) + family_random_cases(ctx.rng, 150)
     known_keys = {e["key"] for e in ctx.known_entries("known")}
     saved = (ctx.broken[:], dict(ctx.dist))
     best = None
